@@ -634,8 +634,24 @@ func runMain(args []string) int {
 		}
 		ok, out := childReplay(path, cl == "proc-crash")
 		if !ok {
-			fmt.Fprintf(os.Stderr, "HARNESS ERROR: violation class %s of run %d does not replay in a fresh process:\n%s\n", cl, v.Run, out)
-			return 2
+			// The simulator is deterministic; dig need not be (Go map iteration
+			// order inside dig is not controllable, DESIGN §1). A violation that
+			// depends on it reproduces only in a share of replays: try again
+			// before calling it harness trouble.
+			hits := 0
+			const again = 12
+			for a := 0; a < again; a++ {
+				if ok2, _ := childReplay(path, cl == "proc-crash"); ok2 {
+					hits++
+				}
+			}
+			if hits == 0 {
+				fmt.Fprintf(os.Stderr, "HARNESS ERROR: violation class %s of run %d does not replay in a fresh process:\n%s\n", cl, v.Run, out)
+				return 2
+			}
+			v.Detail += fmt.Sprintf(" [the code under test is not deterministic on this history: reproduced in %d of %d further replays]", hits, again)
+			rf.Detail = v.Detail
+			writeJSON(path, rf)
 		}
 		minimised = append(minimised, map[string]interface{}{"class": cl, "run": v.Run, "orig_ops": v.OrigOps, "min_ops": len(h.Ops), "detail": v.Detail, "history": h.Describe(), "count": total.ClassCount[cl]})
 		if kf := matchKnown(known, *prop, cl, h); kf != nil {
